@@ -575,6 +575,7 @@ type Contract struct {
 	Modifies []string
 	ModAll   bool
 	Preserves []string // heap designators exempt from "modifies *"
+	Borrows   []string // parameters the function does not retain after it returns (assumed; see keepPrivate)
 	Loops    map[int]*LoopSpec
 	AtCalls  []*AtCall
 	Asserts  []*AssertAt
@@ -809,6 +810,12 @@ func (cs *ContractSet) parseContractText(pkgPath, file string, lines []string, l
 						cur.ModAll = true
 					} else if m != "" {
 						cur.Modifies = append(cur.Modifies, m)
+					}
+				}
+			case "borrows":
+				for _, m := range strings.Split(rest, ",") {
+					if m = strings.TrimSpace(m); m != "" {
+						cur.Borrows = append(cur.Borrows, m)
 					}
 				}
 			case "preserves":
